@@ -167,12 +167,12 @@ def gen_case(rng, rich=True):
     mts_prov = prov if (pc['p'][0] == ['w', 'none'] and pc['p'][1][0] != 'w' or pc['p'][1] in (['w', 'all'], ['w', 'remaining'])) else []
     if pc['p'][0] != ['w', 'none']:
         mts_prov = []
-    if mts_prov and rng.random() < 0.5:
+    if mts_prov and rng.random() < 0.85:
         p = rng.choice(mts_prov)
         it = p[4]
         ins = [e for e in it['events'] if e[1] == 'in']
         if len(ins) >= 2:
-            claim, release = ins[0], ins[1]
+            claim, release = rng.sample(ins, 2)      # any two distinct in-events, in any order
             claim[2] = [it['enum']]
             enum_fields = it['types'][0][2]
             mc = [p[0], claim[0], [rng.choice(enum_fields)], release[0]]
